@@ -7,7 +7,7 @@
    enc_fields / wf_fields / tree_of_fields : Spec/UnknownSpec.v (typed values, their Binary encoding with
    canonical bools, the format's limits, the tree a field sequence denotes)
    canon_fields / enc_tree_fields : canonical trees and the bytes they denote. *)
-From GV Require Import Lib.Bytes Lib.Res Gen.Consts Model.Binary Spec.Wire Model.Unknown Spec.UnknownSpec Proofs.UnknownP.
+From GV Require Import Lib.Bytes Lib.Res Gen.Consts Model.Binary Spec.Wire Model.Unknown Spec.UnknownSpec Proofs.UnknownP Proofs.UnknownGrammarP.
 Open Scope N_scope.
 
 (* bytes -> tree -> bytes: for EVERY non-empty sequence of well-formed encoded fields (every type, any nesting,
@@ -21,6 +21,18 @@ Theorem C13_bytes_tree_bytes : forall fs, fs <> [] -> wf_fields fs = true ->
   convert b = Ok t /\ canon_fields t = true /\ fields_len t = Ok (len b) /\
   (forall buf, len b <= len buf -> write_fields buf t = Ok (b ++ drop (len b) buf, len b)).
 Proof. exact bytes_tree_bytes. Qed.
+
+(* the same over the shared Thrift grammar of the skipper properties (Spec/ThriftGrammar.v: raw unsigned
+   patterns, raw type bytes; [G.wt] well-typedness, [G.enc] encoding): the body of EVERY well-typed struct
+   value whose bool bytes are 0/1 — its encoding without the closing STOP byte — converts to the tree it
+   denotes and is written back byte for byte. *)
+Theorem C13_bytes_tree_bytes_grammar : forall fs, fs <> [] ->
+  G.wt G.T_STRUCT (G.VStruct fs) = true -> cbools (G.VStruct fs) = true ->
+  exists b, G.enc (G.VStruct fs) = b ++ [G.T_STOP] /\
+    let t := tree_of_fields (tfields fs) in
+    convert b = Ok t /\ canon_fields t = true /\ fields_len t = Ok (len b) /\
+    (forall buf, len b <= len buf -> write_fields buf t = Ok (b ++ drop (len b) buf, len b)).
+Proof. exact bytes_tree_bytes_grammar. Qed.
 
 (* tree -> bytes -> tree: for EVERY non-empty canonical tree list: the length is that of the bytes written,
    the write fills exactly that prefix of the buffer, and converting what was written gives the tree back. *)
@@ -78,6 +90,11 @@ Proof. exact d9_without_reset_refuted. Qed.
 (* non-vacuity of the hypotheses *)
 Example C13_nonvacuous_fields : d9_value <> [] /\ wf_fields d9_value = true.
 Proof. split; [discriminate|reflexivity]. Qed.
+Example C13_nonvacuous_grammar :
+  let fs := [(12, 1, G.VStruct [(13, 1, G.VMap 8 10 [(G.VI32 5, G.VI64 7)]); (8, 2, G.VI32 9)])] in
+  fs <> [] /\ G.wt G.T_STRUCT (G.VStruct fs) = true /\ cbools (G.VStruct fs) = true /\
+  tfields fs = d9_value.
+Proof. repeat split; try reflexivity. discriminate. Qed.
 Example C13_nonvacuous_accepted :
   wf (enc_fields d9_value) /\ convert (enc_fields d9_value) = Ok (tree_of_fields d9_value).
 Proof. split; [apply wfbb_wf; reflexivity|exact d9_repaired]. Qed.
